@@ -681,7 +681,12 @@ func (r *Report) Finish() int {
 	os.RemoveAll(replayDir)
 	nviol := 0
 	var lines []string
+	seenKey := map[string]bool{}
 	for i, v := range r.violations {
+		if seenKey[v.Key] {
+			continue
+		}
+		seenKey[v.Key] = true
 		if what, ok := known[v.Key]; ok {
 			v.Known = true
 			lines = append(lines, fmt.Sprintf("KNOWN-FINDING: property=%s key=%s %s", r.Property, v.Key, what))
